@@ -120,6 +120,10 @@ class Check:
     # ---------------------------------------------------------------- E1
     def run_e1(s, families, assumptions=(), bounds=()):
         fams = [f for f in families if f.tier == 'quick' or s.tier == 'thorough']
+        if s.tier == 'thorough':
+            for f in fams:
+                if f.opts.get('time_limit', 0) < 2400:
+                    f.opts['time_limit'] = 2400      # more families share the cores in this tier
         s.assumptions += list(assumptions)
         s.bounds += list(bounds)
         rnd = random.Random(s.seed)
